@@ -231,7 +231,7 @@ fn jobs_for(prop: Prop, thorough: bool) -> Vec<String> {
     let on_boundary = |p: &str| p.starts_with("s64") || p == "s65-hole63";
     if !thorough {
         let (d_empty, d_full1, d_big) = depths(false);
-        for (pool, pay) in [("RawOpaquePool", "P24"), ("LocalBlindPool", "P64"), ("PinnedPool", "P8")] {
+        for (pool, pay) in [("RawOpaquePool", "P24"), ("RawBlindPool", "P8"), ("LocalBlindPool", "P64"), ("PinnedPool", "P8")] {
             for strict in [false, true] {
                 add(pool, pay, 2, "empty", strict, d_empty);
                 add(pool, pay, 2, "full1", strict, d_full1);
